@@ -9,7 +9,10 @@ cd "$(dirname "$0")/.."
 git -C /repo worktree add -q "$WT" HEAD || exit 3
 if ! git -C "$WT" apply "$PATCH"; then echo "PATCH DOES NOT APPLY"; git -C /repo worktree remove --force "$WT"; exit 3; fi
 for id in $IDS; do
+  cp -f evidence/$id.json /tmp/ev_$$_$id.json 2>/dev/null
   GEPARD_REPO="$WT" VERIF_SEED=$SEED timeout 1500 ./check $id 2>&1 | grep -E "^(OK|FAIL|VIOLATION|ERROR|TIMEOUT|KNOWN|  )" | cut -c1-260 | head -12 | sed "s/^/[$id] /"
+  # evidence committed under /verif must come from runs against /repo itself: put the previous file back
+  mv -f /tmp/ev_$$_$id.json evidence/$id.json 2>/dev/null
 done
 git -C /repo worktree remove --force "$WT"
 python3 tools/regen.py >/dev/null 2>&1
